@@ -1091,6 +1091,12 @@ func c11CloseVsCallbackStart(id int, delay int64, dir string) (c c11Case, wedged
 		c.Skip = "SetCallbacks: " + err.Error()
 		return
 	}
+	// SetCallbacks starts the callback goroutine once (nothing to offer): wait until it has gone again
+	end := time.Now().Add(c11Bound)
+	for atomic.LoadUint32(&sst.callbackInProcess) != 0 && time.Now().Before(end) {
+		time.Sleep(time.Millisecond)
+	}
+	time.Sleep(5 * time.Millisecond)
 	hookRan := make(chan string, 1)
 	vhookC11BeforeClose = func(s *Stream) {
 		if s != sst {
